@@ -333,7 +333,7 @@ def make_world(env, rng, kind, lb_params=None, open_delay=None, get_servers_dela
     msg = I['MethodCallMessage'](None, 'm', (req['id'],), {})
     msg.properties['__Endpoint'] = None
     if timeout is not None:
-      msg.properties[I['Deadline'].KEY] = env.now + timeout
+      msg.properties[I['Deadline'].KEY] = env.clock.time() + timeout      # (deadlines are wall-clock instants)
     stack = I['ClientMessageSinkStack']()
     stack.Push(w.terminator, req)
     w.dispatching = req
